@@ -6,6 +6,7 @@ import r_sync
 import r_txn
 import r_taskdb
 import r_storage
+import r_crypto
 
 PROPS = {}
 
@@ -94,6 +95,12 @@ PROPS["C16"] = {
     "explanation": "Q1 proxy/actor tables agree (21 methods x 22 messages, crossed wires compile); Q2 every modifying SQL statement and commit dominated by check_write_access, schema upgrade only read-write; Q3 in-memory add_to_working_set returns the stored index; N3 sibling is_empty defaults agree.",
     "not_decided": "equality of results for all call sequences, persistence across reopen, legacy-schema upgrades as data transformations",
     "assumptions": [],
+}
+PROPS["C13"] = {
+    "rules": [r_crypto.rule_X1, r_crypto.rule_X2, r_crypto.rule_X3, r_crypto.rule_X4, r_crypto.rule_X5, r_crypto.rule_X6, r_crypto.rule_X7],
+    "explanation": "The sealing scheme is constants, call identities and dataflow, all decided on every path: X1 KDF/AEAD parameters and that the secret and salt reach the KDF unmodified; X2 AAD layout; X3 seal (fresh nonce filled before use, AAD from the payload's version id, tag appended, envelope layout); X4 unseal (length and exact format-byte checks, slices, AEAD failure is an error, result is the AEAD output); X5 every sink in the three remote backends is fed from seal (or key-derivation metadata) and every returned payload comes from unseal; X6 version-id binding table per backend, writer and reader agree; X7 salt provenance.",
+    "not_decided": "that ring implements ChaCha20-Poly1305/PBKDF2 correctly; the exhaustive tamper sweep (follows from AEAD once X2-X4 hold)",
+    "assumptions": ["ring's AEAD and PBKDF2 are correct", "reqwest/std::fs/serde_json sinks are the only ways bytes leave the host in these modules (sink table in rules/r_crypto.py)"],
 }
 # reasons shown in MANIFEST.not_applicable for properties not (yet) claimed
 NOT_YET = {}
